@@ -1,6 +1,7 @@
 package rules
 
 import (
+	"go/token"
 	"strings"
 
 	"golang.org/x/tools/go/ssa"
@@ -123,6 +124,16 @@ func c14(c *Ctx) {
 		}
 		for lvl, h := range map[string]hookFacts{"SetPod" + x: ph, "SetContainer" + x: ch} {
 			ok := strings.Contains(h.guards, "isBE") && strings.Contains(h.guards, "hasSpec")
+			if !ok {
+				// the same, asked of the explorer (the two conditions may be folded into one value, e.g. a spec that
+				// is nil for a pod that is not BE): with the pod assumed not BE, and with the request's extended
+				// spec assumed nil, no store into Response.Resources is reachable
+				hf := pf
+				if strings.HasPrefix(lvl, "SetContainer") {
+					hf = cf
+				}
+				ok = writeNeedsBEAndSpec(hf)
+			}
 			r.Check(ok, "PATH", "batchresource."+lvl+"/write<=BE+spec", "", "response written only for BE pods with an extended spec", "the response is written without the guards isPodQoSBEByAttr()==true and spec != nil (guards: "+h.guards+"): non-BE pods would be touched")
 		}
 	}
@@ -190,4 +201,43 @@ func c14readers(c *Ctx) {
 		}
 		r.Check(len(f) == 1 && bad == "", "PATH", fkey(fn)+"/present=>its-value", c.Pos(fn.Pos()), "a present entry is returned through Value()/MilliValue()", "with the batch entry present a return at "+bad+" yields something else than the quantity's Value()/MilliValue() (e.g. the 'not declared' constant): the container becomes unlimited although it declares an amount")
 	}
+}
+
+// writeNeedsBEAndSpec: no store into Response.Resources.* is reachable when isPodQoSBEByAttr says no, nor when the
+// ExtendedResources of the request are nil.
+func writeNeedsBEAndSpec(fn *ssa.Function) bool {
+	var be []ssa.Value
+	var spec []ssa.Value
+	for _, cl := range an.Calls(fn, false) {
+		if an.ShortCallee(cl.Common()) == "isPodQoSBEByAttr" {
+			be = append(be, cl.Value())
+		}
+	}
+	for _, b := range fn.Blocks {
+		for _, in := range b.Instrs {
+			if ld, ok := in.(*ssa.UnOp); ok && ld.Op == token.MUL && strings.HasSuffix(an.Path(ld), ".Request.ExtendedResources") {
+				spec = append(spec, ld)
+			}
+		}
+	}
+	if len(be) == 0 || len(spec) == 0 {
+		return false
+	}
+	writes := func(r *an.Reach) bool {
+		for _, in := range r.Instrs() {
+			if st, ok := in.(*ssa.Store); ok && strings.Contains(an.Path(st.Addr), ".Response.Resources.") {
+				return true
+			}
+		}
+		return false
+	}
+	f1 := an.Facts{}
+	for _, v := range be {
+		f1[v] = an.False
+	}
+	f2 := an.Facts{}
+	for _, v := range spec {
+		f2[v] = an.Nil
+	}
+	return !writes(an.Explore(fn, nil, f1, nil)) && !writes(an.Explore(fn, nil, f2, nil))
 }
